@@ -23,9 +23,15 @@ def mutants(src):
     """yield (line_no, description, new_source)"""
     lines = src.split('\n')
     infunc = False
+    skip = set(os.environ.get('MUT_SKIP_FUNCS', '').split(','))
+    curfn = None
     for i, ln in enumerate(lines):
         s = ln.strip()
-        if ln.startswith('func '): infunc = True
+        if ln.startswith('func '):
+            infunc = True
+            mm = re.match(r'^func (?:\([^)]*\) )?(\w+)\(', ln)
+            curfn = mm.group(1) if mm else None
+        if curfn in skip: continue
         if not infunc or s.startswith('//') or not s: continue
         code = ln.split('//')[0]
         # relational operators (outside strings)
@@ -48,6 +54,29 @@ def mutants(src):
             if code.count('"', 0, m.start()) % 2 == 1: continue
             new = code[:m.start()] + code[m.end():]
             yield i+1, f'drop {m.group(0).strip()}', '\n'.join(lines[:i] + [new + ln[len(code):]] + lines[i+1:])
+        if os.environ.get('MUT_EXTRA'):
+            # arithmetic operator swaps
+            for m in re.finditer(r'(?<=[\w)\]]) ([+\-*/]) (?=[\w(])', code):
+                if code.count('"', 0, m.start()) % 2 == 1 or code.count("'", 0, m.start()) % 2 == 1: continue
+                b = {'+':'-','-':'+','*':'/','/':'*'}[m.group(1)]
+                new = code[:m.start(1)] + b + code[m.end(1):]
+                yield i+1, f'{m.group(1)} -> {b}', '\n'.join(lines[:i] + [new + ln[len(code):]] + lines[i+1:])
+            # small integer literals +1
+            for m in re.finditer(r'(?<![\w.\'"])([0-9]{1,4})(?![\w.\'"_])', code):
+                if code.count('"', 0, m.start()) % 2 == 1: continue
+                new = code[:m.start()] + str(int(m.group(1))+1) + code[m.end():]
+                yield i+1, f'{m.group(1)} -> {int(m.group(1))+1}', '\n'.join(lines[:i] + [new + ln[len(code):]] + lines[i+1:])
+            # swap the first two identifier arguments of a call
+            for m in re.finditer(r'\b([A-Za-z_][\w.]*)\((\w+), (\w+)([,)])', code):
+                if m.group(2) == m.group(3) or code.count('"', 0, m.start()) % 2 == 1: continue
+                new = code[:m.start(2)] + m.group(3) + ', ' + m.group(2) + code[m.start(4):]
+                yield i+1, f'swap args {m.group(2)},{m.group(3)}', '\n'.join(lines[:i] + [new + ln[len(code):]] + lines[i+1:])
+            # drop a leading !
+            for m in re.finditer(r'(?<![=!<>])!(?=[\w(])', code):
+                if code.count('"', 0, m.start()) % 2 == 1: continue
+                new = code[:m.start()] + code[m.end():]
+                yield i+1, 'drop !', '\n'.join(lines[:i] + [new + ln[len(code):]] + lines[i+1:])
+            continue
         # negate an if condition
         m = re.match(r'^(\s*)(if|} else if) (.*) \{\s*$', code)
         if m and ';' not in m.group(3):
